@@ -22,7 +22,7 @@ DIGITS16 = 1e-15  # relative error of a number printed with 16 significant digit
 
 
 def real(n, vtype):
-    """the specification's number id -> the real number (floats: not representable in 16 digits)."""
+    """the specification's number id -> the real number (floats: most are not representable in 16 digits)."""
     return float(n) if vtype == "integer" else n / 7.0
 
 
@@ -56,21 +56,24 @@ def spec_projection(space):
              [real(n, v["type"]) for n in v["val"]] if v["hasVal"] else None) for v in space]
 
 
-def close(a, b, tol):
+def number_gap(a, b):
+    """None when the two lists of numbers are the same numbers; else how far apart they are: "17th_digit"
+    (they agree to the 16 significant digits "%.16g" prints: a rounding of the text form) or "coarser"."""
     if a is None or b is None:
-        return a is None and b is None
+        return None if (a is None and b is None) else "coarser"
     if len(a) != len(b):
-        return False
+        return "coarser"
+    gap = None
     for x, y in zip(a, b):
-        if np.isinf(x) or np.isinf(y):
-            if x != y:
-                return False
-        elif abs(x - y) > tol * abs(y):
-            return False
-    return True
+        if x == y:
+            continue
+        if np.isinf(x) or np.isinf(y) or np.isnan(x) or np.isnan(y) or abs(x - y) > DIGITS16 * abs(y):
+            return "coarser"
+        gap = "17th_digit"
+    return gap
 
 
-def diff_space(got, want, tol):
+def diff_space(got, want):
     if [g[0] for g in got] != [w[0] for w in want]:
         return "names", {"impl": [g[0] for g in got], "spec": [w[0] for w in want]}
     for g, w in zip(got, want):
@@ -78,8 +81,9 @@ def diff_space(got, want, tol):
             if g[i] != w[i]:
                 return field, {"variable": w[0], "impl": g[i], "spec": w[i]}
         for field, i in (("lower_bound", 3), ("upper_bound", 4), ("value", 5)):
-            if not close(g[i], w[i], tol):
-                return field, {"variable": w[0], "impl": g[i], "spec": w[i]}
+            gap = number_gap(g[i], w[i])
+            if gap:
+                return field, {"variable": w[0], "impl": g[i], "spec": w[i], "precision": gap}
     return None
 
 
@@ -89,7 +93,8 @@ def read_csv_rows(path):
 
 
 def diff_csv_rows(rows, spec_rows, fields):
-    """real text rows against the rows the specification computed (structure exact, numbers to 16 digits)."""
+    """real text rows against the rows the specification computed: the structure, and the numbers -- the text
+    of a number must identify the number (C11: same bounds and current values)."""
     col = {f: i for i, f in enumerate(fields)}
     rows = [tuple(r[col[f]] for f in ("name", "lower_bound", "value", "upper_bound", "type")) if len(r) == 5 else r
             for r in rows]
@@ -109,8 +114,9 @@ def diff_csv_rows(rows, spec_rows, fields):
             got = [float(t) for t in got_tok]
         except ValueError:
             return "number", {"row": k, "impl": r}
-        if not close(got, want, DIGITS16):
-            return "number", {"row": k, "impl": got, "spec": want}
+        gap = number_gap(got, want)
+        if gap:
+            return "number", {"row": k, "impl": got, "spec": want, "text": list(got_tok), "precision": gap}
     return None
 
 
@@ -167,7 +173,7 @@ def run_space_case(job):
     h5 = Path(workdir) / f"ds{idx}.h5"
     try:
         ds = build_space(space)
-        d = diff_space(rp.project_ds(ds), want, 0.0)
+        d = diff_space(rp.project_ds(ds), want)
         if d:  # the object built by the harness is not the instance: not gemseo's I/O
             return [("Build", d[0], d[1])]
         # ---- text file
@@ -181,7 +187,7 @@ def run_space_case(job):
                 if d:
                     out.append(("CsvStructure", d[0], d[1]))
             back = DesignSpace.from_csv(csv) if idx % 3 else DesignSpace.from_file(csv)
-            d = diff_space(rp.project_ds(back), want, DIGITS16)
+            d = diff_space(rp.project_ds(back), want)
             if d:
                 out.append(("CsvRoundTrip", d[0], d[1]))
         except Exception as ex:  # noqa: BLE001
@@ -197,7 +203,7 @@ def run_space_case(job):
             if d:
                 out.append(("HdfStructure", d[0], d[1]))
             back = DesignSpace.from_hdf(h5, hdf_node_path=node) if node else DesignSpace.from_file(h5)
-            d = diff_space(rp.project_ds(back), want, 0.0)
+            d = diff_space(rp.project_ds(back), want)
             if d:
                 out.append(("HdfRoundTrip", d[0], d[1]))
         except Exception as ex:  # noqa: BLE001
@@ -240,8 +246,10 @@ def design_spaces(ck: Check, rng, nproc):
                 if clause == "Build":
                     raise MachineryError(f"harness could not build the instance {space}: {detail}")
                 shape = [(v["size"], v["type"], v["hasVal"]) for v in space]
-                ck.violation(clause, {"what": what, "n_vars": len(space), "node": "nested" if idx % 2 else "root"},
-                             dict(detail, space=spec_projection(space), shape=shape))
+                sig = {"what": what, "n_vars": len(space), "node": "nested" if idx % 2 else "root"}
+                if "precision" in detail:
+                    sig["precision"] = detail["precision"]
+                ck.violation(clause, sig, dict(detail, space=spec_projection(space), shape=shape))
             if not res:
                 ck.traces += 1
         if jobs:
@@ -253,19 +261,55 @@ def design_spaces(ck: Check, rng, nproc):
 
 # ============================================================================= HDF5 cache reopening
 
-def cache_inputs(i):
-    return {"x": np.array([float(i), 0.5]), "n": np.array([i])}
+BIG_N = 400  # HDFCacheFile!BigN
+
+
+def cache_inputs(i, big=False):
+    d = {"x": np.array([float(i), 0.5, -2.0]), "w": np.array([1.5, float(i)]), "n": np.array([i])}
+    if big:
+        d["X"] = np.full(BIG_N, float(i))
+    return d
 
 
 def cache_outputs(i):
-    return {"y": np.array([10.0 * i + 0.5, -float(i)]), "tag": np.array([f"run{i}"])}
+    return {"y": np.array([10.0 * i + 0.5, -float(i), 0.25]), "z": np.array([float(i), 1.0]),
+            "tag": np.array([f"run{i}"])}
 
 
-def cache_jacobian(i):
-    from scipy.sparse import csr_array
+def big_matrix(i, column=False):
+    """the matrix the harness supplies for the block the specification leaves opaque (HDFCacheFile "big":
+    more non-zero elements than the attributes of an HDF5 dataset can hold)"""
+    if column:
+        return np.arange(BIG_N, dtype=float).reshape(-1, 1) + 100.0 * i
+    from scipy.sparse import random as sparse_random
 
-    dn = np.array([[float(i)], [0.0]])
-    return {"y": {"x": np.array([[float(i), 1.0], [0.0, -float(i)]]), "n": csr_array(dn) if i % 2 == 0 else dn}}
+    return sparse_random(BIG_N, BIG_N, density=0.15, format="csr", random_state=i).toarray()
+
+
+def in_representation(matrix, rep):
+    """a dense matrix -> the same matrix in the representation `rep` (no explicit zero is stored)"""
+    import scipy.sparse as sp
+
+    if rep == "dense":
+        return np.array(matrix, dtype=float)
+    return {"csr": sp.csr_array, "csc": sp.csc_array, "coo": sp.coo_array}[rep](np.array(matrix, dtype=float))
+
+
+def block_matrix(i, blk):
+    """the specification's block (rows of integers; rows = <<>>: the opaque big block) -> dense matrix"""
+    if len(blk["rows"]) == 0:
+        return big_matrix(i, column=blk["n"] == "n")
+    return np.array([list(r) for r in blk["rows"]], dtype=float).reshape(tuple(blk["shape"]))
+
+
+def build_jacobian(i, blocks, rep):
+    """JacOf(i, b) of the specification -> the nested dictionary handed to cache_jacobian: the block
+    itself in representation `rep`, its sibling column (with respect to "n") dense."""
+    jac = {}
+    for blk in sorted(blocks, key=lambda b: (b["o"], b["n"]), reverse=True):
+        jac.setdefault(str(blk["o"]), {})[str(blk["n"])] = in_representation(
+            block_matrix(i, blk), "dense" if blk["n"] == "n" else rep)
+    return jac
 
 
 def _dense(a):
@@ -287,19 +331,48 @@ def same_arrays(got, want):
     return True
 
 
-def served(cache, n_inputs):
-    """what the open cache object serves: [(has outputs, has jacobian, values are the ones cached)]"""
-    out = {}
+def _num(x):
+    x = float(x)
+    return int(x) if x == int(x) else x
+
+
+def served(cache, n_inputs, big=False):
+    """what the open cache object serves for every input: {input: [has outputs, the outputs are the ones
+    cached, {"out|in": [shape, rows]}]} -- the matrices as nested lists of numbers (JSON-able), the opaque
+    big ones as "same" / "differs" (compared with the matrix the harness supplied)."""
+    res = {}
     for i in range(1, n_inputs + 1):
-        e = cache[cache_inputs(i)]
-        has_out, has_jac = bool(e.outputs), bool(e.jacobian)
-        ok = (not has_out or same_arrays(dict(e.outputs), cache_outputs(i))) and \
-             (not has_jac or same_arrays({k: dict(v) for k, v in e.jacobian.items()}, cache_jacobian(i)))
-        out[i] = (has_out, has_jac, ok)
-    return out
+        e = cache[cache_inputs(i, big)]
+        has_out = bool(e.outputs)
+        out_ok = (not has_out) or same_arrays(dict(e.outputs), cache_outputs(i))
+        jac = {}
+        for o, sub in (e.jacobian or {}).items():
+            for n, m in sub.items():
+                a = _dense(m)
+                if a.ndim == 2 and a.shape[0] == BIG_N:
+                    w = big_matrix(i, column=n == "n")
+                    jac[f"{o}|{n}"] = [list(a.shape), "same" if a.shape == w.shape and np.array_equal(a, w) else "differs"]
+                else:
+                    jac[f"{o}|{n}"] = [list(a.shape), [[_num(v) for v in row] for row in np.atleast_2d(a)]]
+        res[str(i)] = [has_out, out_ok, jac]
+    return res
 
 
-def read_cache_layout(path, node):
+def spec_served(mem):
+    """HDFCacheFile!mem -> the vocabulary of served()"""
+    res = {}
+    for i, m in enumerate(rp.as_seq(mem)):
+        jac = {}
+        for blk in m["jac"]:
+            rows = "same" if len(blk["rows"]) == 0 else [list(r) for r in blk["rows"]]
+            jac[f"{blk['o']}|{blk['n']}"] = [list(blk["shape"]), rows]
+        res[str(i + 1)] = [bool(m["out"]), True, jac]
+    return res
+
+
+def read_cache_layout(path, node, sep):
+    """the node of the file in the vocabulary of HDFCacheFile!entries: per entry the input it belongs to,
+    whether it has outputs, and the stored form of every dataset of its jacobian group"""
     import h5py
 
     if not Path(path).exists():
@@ -311,8 +384,33 @@ def read_cache_layout(path, node):
         out = []
         for j in sorted(int(k) for k in g):
             e = g[str(j)]
-            out.append((j, int(e["inputs"]["x"][0]), "outputs" in e, "jacobian" in e, "hash" in e))
+            forms = set()
+            if "jacobian" in e:
+                for name, ds in e["jacobian"].items():
+                    o, _, n = name.partition(sep)
+                    sparse = bool(ds.attrs.get("sparse"))
+                    if sparse:
+                        shape = tuple(int(v) for v in ds.attrs["shape"])
+                        data, ind, ptr = ds[()], ds.attrs["indices"], ds.attrs["indptr"]
+                    else:
+                        shape = tuple(int(v) for v in ds.shape)
+                        data, ind, ptr = ds[()].ravel(), (), ()
+                    if shape[0] == BIG_N:
+                        data, ind, ptr = (), (), ()  # not modelled
+                    forms.add((o, n, "csr" if sparse else "dense", shape, tuple(_num(v) for v in data),
+                               tuple(int(v) for v in ind), tuple(int(v) for v in ptr)))
+            out.append((j, int(e["inputs"]["x"][0]), "outputs" in e, frozenset(forms), "hash" in e))
         return out
+
+
+def spec_cache_layout(entries):
+    out = []
+    for j, e in enumerate(rp.as_seq(entries)):
+        forms = frozenset((str(s["o"]), str(s["n"]), str(s["form"]["fmt"]), tuple(s["form"]["shape"]),
+                           tuple(s["form"]["data"]), tuple(s["form"]["indices"]), tuple(s["form"]["indptr"]))
+                          for s in e["jac"])
+        out.append((j + 1, e["inp"], bool(e["out"]), forms, True))
+    return out
 
 
 _REOPEN_CHILD = r"""
@@ -320,9 +418,9 @@ import sys, json, logging, warnings
 logging.disable(logging.CRITICAL); warnings.filterwarnings("ignore")
 from gemseo.caches.hdf5_cache import HDF5Cache
 from harness.checks.c11_aux import served
-path, node, n = sys.argv[1], sys.argv[2], int(sys.argv[3])
+path, node, n, big = sys.argv[1], sys.argv[2], int(sys.argv[3]), sys.argv[4] == "1"
 cache = HDF5Cache(hdf_file_path=path, hdf_node_path=node)
-print(json.dumps({"len": len(cache), "served": {str(k): list(v) for k, v in served(cache, n).items()}}))
+print(json.dumps({"len": len(cache), "served": served(cache, n, big)}))
 """
 
 
@@ -334,90 +432,151 @@ def run_cache_walk(job):
     warnings.filterwarnings("ignore")
     from gemseo.caches.hdf5_cache import HDF5Cache
 
-    idx, edge_ids, workdir, n_inputs, child = job
+    idx, edge_ids, workdir, n_inputs, child, jacs, big = job
     g = rp._G
+    sep = HDF5Cache._JACOBIAN_SEPARATOR
     node = "node" if idx % 2 == 0 else "caches/disc_1"
     path = Path(workdir) / f"cache{idx}.h5"
     out = []
     ops = []
     steps = 0
+    sig = {}
     try:
         cache = HDF5Cache(hdf_file_path=path, hdf_node_path=node)
         for k in edge_ids:
             _, dst, act, args = g.edges[k]
             state = g.states[dst]
+            sig = {}
             try:
-                if act == "Cache":
-                    i, group = args
-                    ops.append(("CacheOutputs" if group == "out" else "CacheJacobian"))
-                    if group == "out":
-                        cache.cache_outputs(cache_inputs(i), cache_outputs(i))
-                    else:
-                        cache.cache_jacobian(cache_inputs(i), cache_jacobian(i))
+                if act == "CacheOutputs":
+                    ops.append("CacheOutputs")
+                    cache.cache_outputs(cache_inputs(args[0], big), cache_outputs(args[0]))
+                elif act == "CacheJacobian":
+                    i, rep, b = args
+                    sig = {"rep": str(rep), "block": str(b)}
+                    ops.append(f"CacheJacobian:{rep}:{b}")
+                    cache.cache_jacobian(cache_inputs(i, big), build_jacobian(i, jacs[(i, str(b))], str(rep)))
                 elif act == "Reopen":
                     ops.append("Reopen")
                     cache = HDF5Cache(hdf_file_path=path, hdf_node_path=node)
                 else:
                     raise RuntimeError(act)
-                got = served(cache, n_inputs)
+                got = served(cache, n_inputs, big)
                 n = len(cache)
-                layout = read_cache_layout(path, node)
+                layout = read_cache_layout(path, node, sep)
             except Exception as ex:  # noqa: BLE001
-                out.append(("CacheReopen", "exception:" + type(ex).__name__, list(ops), {"exception": repr(ex)}))
+                out.append(("CacheReopen", dict(sig, what="exception:" + type(ex).__name__), list(ops),
+                            {"exception": repr(ex)[:600]}))
                 break
-            mem = rp.as_seq(state["mem"])
-            want = {i + 1: (m["out"], m["jac"], True) for i, m in enumerate(mem)}
+            want = spec_served(state["mem"])
             if got != want:
-                out.append(("CacheReopen", "served", list(ops), {"impl": got, "spec": want}))
+                i = next(i for i in want if got.get(i) != want[i])
+                what = "served:" + ("outputs" if got[i][:2] != want[i][:2] else "jacobian")
+                out.append(("CacheReopen", dict(sig, what=what), list(ops),
+                            {"input": i, "impl": got[i], "spec": want[i]}))
                 break
             if n != state["maxIdx"]:
-                out.append(("CacheReopen", "length", list(ops), {"impl": n, "spec": state["maxIdx"]}))
+                out.append(("CacheReopen", dict(sig, what="length"), list(ops), {"impl": n, "spec": state["maxIdx"]}))
                 break
-            want_layout = [(j + 1, e["inp"], e["out"], e["jac"], True) for j, e in enumerate(rp.as_seq(state["entries"]))]
+            want_layout = spec_cache_layout(state["entries"])
             if layout != want_layout:
-                out.append(("CacheLayout", "entries", list(ops), {"impl": layout, "spec": want_layout}))
+                bad = next((a, b) for a, b in zip(layout + [None] * len(want_layout), want_layout + [None] * len(layout))
+                           if a != b)
+                what = "entries"
+                if bad[0] and bad[1] and bad[0][:3] == bad[1][:3] and bad[0][4] == bad[1][4]:
+                    what = "jacobian_form"
+                out.append(("CacheLayout", dict(sig, what=what), list(ops),
+                            {"impl": _layout_json(bad[0]), "spec": _layout_json(bad[1])}))
                 break
             steps += 1
         if child and not out and steps:
             # a reopening in a new process (no in-process singleton, no shared index)
-            p = subprocess.run([sys.executable, "-c", _REOPEN_CHILD, str(path), node, str(n_inputs)],
+            p = subprocess.run([sys.executable, "-c", _REOPEN_CHILD, str(path), node, str(n_inputs), "1" if big else "0"],
                                capture_output=True, text=True, cwd=str(Path(__file__).resolve().parents[2]),
                                env=dict(os.environ))
             if p.returncode != 0:
-                out.append(("CacheReopen", "exception:child", ops + ["ReopenInNewProcess"], {"stderr": p.stderr[-800:]}))
+                out.append(("CacheReopen", {"what": "exception:child"}, ops + ["ReopenInNewProcess"],
+                            {"stderr": p.stderr[-800:]}))
             else:
                 res = json.loads(p.stdout.strip().splitlines()[-1])
-                want = {str(k): list(v) for k, v in want.items()}
                 if res["served"] != want or res["len"] != state["maxIdx"]:
-                    out.append(("CacheReopen", "served", ops + ["ReopenInNewProcess"], {"impl": res, "spec": want}))
+                    out.append(("CacheReopen", {"what": "served:child"}, ops + ["ReopenInNewProcess"],
+                                {"impl": res, "spec": want}))
     finally:
         if path.exists():
             os.remove(path)
     return {"idx": idx, "steps": steps, "viol": out}
 
 
-def caches(ck: Check, rng, nproc):
-    n_inputs = 3 if ck.thorough else 2
-    cfg = (f"CONSTANTS NInputs = {n_inputs}\nSPECIFICATION Spec\nCHECK_DEADLOCK FALSE\n"
-           "INVARIANT Served\nINVARIANT NoDuplicate\nINVARIANT LenIsMax\nPROPERTY ReopenIsIdentity\n")
-    ck.tlc("HDFCacheFile", cfg, workers=4, timeout=600, dump=True)
+def _layout_json(entry):
+    if entry is None:
+        return None
+    j, inp, has_out, forms, has_hash = entry
+    return {"index": j, "input": inp, "outputs": has_out, "hash": has_hash,
+            "jacobian": sorted([list(f[:3]) + [list(f[3]), list(f[4]), list(f[5]), list(f[6])] for f in forms])}
+
+
+ALL_REPS = '{"dense", "csr", "csc", "coo"}'
+
+
+def cache_tour(ck: Check, rng, *, n_inputs, reps, blocks, budget, label, children=2):
+    """model-check HDFCacheFile for these constants, walk its graph on a real HDF5Cache (serially: an
+    HDF5Cache owns a multiprocessing manager, which a pool worker may not start)."""
+    cfg = (f"CONSTANTS NInputs = {n_inputs}\n Reps = {reps}\n Blocks = {blocks}\n"
+           "SPECIFICATION Spec\nCHECK_DEADLOCK FALSE\n"
+           "INVARIANT Served\nINVARIANT NoDuplicate\nINVARIANT LenIsMax\nINVARIANT FormsRoundTrip\n"
+           "PROPERTY ReopenIsIdentity\n")
+    r = ck.tlc("HDFCacheFile", cfg, workers=4, timeout=900, dump=True,
+               require_actions=("CacheOutputs", "CacheJacobian"))
+    jacs = {}
+    for v in r.printed():
+        if isinstance(v, tuple) and v and v[0] == "JAC":
+            jacs[(v[1], str(v[2]))] = v[3]
     g = rp.canonicalise(Graph(ck.work / "HDFCacheFile.dot"))
-    for act, grp in (("Cache", "out"), ("Cache", "jac"), ("Reopen", None)):  # vacuity, from the graph itself
-        if not any(e[2] == act and (grp is None or e[3][1] == grp) for e in g.edges):
-            raise MachineryError(f"vacuity: no {act} {grp or ''} transition in HDFCacheFile")
-    walks, covered, wanted = rp.Tour(g).walks(40)
+    (ck.work / "HDFCacheFile.dot").unlink()
+    # vacuity, from the graph itself: every representation of every block is cached, and the cache reopened
+    import re
+
+    combos = {(str(e[3][1]), str(e[3][2])) for e in g.edges if e[2] == "CacheJacobian" and e[0] != e[1]}
+    need = {(a, b) for a in re.findall(r'"(\w+)"', reps) for b in re.findall(r'"(\w+)"', blocks)}
+    if combos != need or not any(e[2] == "Reopen" for e in g.edges) or \
+            not any(e[2] == "CacheOutputs" for e in g.edges) or set(jacs) != {(i, b) for i in range(1, n_inputs + 1)
+                                                                             for _, b in need}:
+        raise MachineryError(f"vacuity: HDFCacheFile transitions {sorted(combos)} for {sorted(need)}")
+    if budget is None:
+        walks, covered, wanted = rp.Tour(g).walks(40)
+    else:
+        walks, covered, wanted = rp.Tour(g).walks(40, budget=budget, rng=rng)
     rp.set_graph(g)
-    jobs = [(i, w, str(ck.work), n_inputs, i < 2) for i, w in enumerate(walks)]
-    # serial: an HDF5Cache owns a multiprocessing manager, which a pool worker may not start
+    big = '"big"' in blocks
+    jobs = [(i, w, str(ck.work), n_inputs, i < children, jacs, big) for i, w in enumerate(walks)]
     results = [run_cache_walk(j) for j in jobs]
-    for x in results:
-        for clause, what, ops, detail in x["viol"]:
-            ck.violation(clause, {"what": what, "ops": ops[-10:]}, dict(detail, ops=ops))
+    done = set()
+    for x, w in zip(results, walks):
+        for clause, sig, ops, detail in x["viol"]:
+            ck.violation(clause, dict(sig, ops=ops[-10:]), dict(detail, ops=ops))
         if not x["viol"]:
             ck.traces += 1
+        for k in w[:x["steps"]]:
+            e = g.edges[k]
+            if e[2] == "CacheJacobian" and e[0] != e[1]:
+                done.add(f"{e[3][1]}:{e[3][2]}")
     ck.sample({"cache_walk": [g.edges[k][2] + str(list(g.edges[k][3])) for k in walks[0][:12]]})
-    ck.extra["cache_tour"] = {"states": len(g.states), "edges": len(g.edges), "walks": len(walks),
-                              "edges_covered": covered, "steps_replayed": sum(x["steps"] for x in results)}
+    ck.extra.setdefault("cache_tours", {})[label] = {
+        "states": len(g.states), "edges": len(g.edges), "walks": len(walks), "edges_covered": covered,
+        "edges_wanted": wanted, "steps_replayed": sum(x["steps"] for x in results),
+        "first_jacobian_by_representation_and_block": sorted(done)}
+
+
+def caches(ck: Check, rng, nproc):
+    small = '{"sq", "wide", "tall"}'
+    if ck.thorough:
+        cache_tour(ck, rng, n_inputs=2, reps=ALL_REPS, blocks=small, budget=None, label="2 inputs")
+        cache_tour(ck, rng, n_inputs=3, reps='{"dense", "csc"}', blocks='{"sq"}', budget=4000, label="3 inputs")
+    else:
+        cache_tour(ck, rng, n_inputs=2, reps=ALL_REPS, blocks=small, budget=900, label="2 inputs")
+    # a Jacobian whose sparse form exceeds what the attributes of an HDF5 dataset can hold
+    cache_tour(ck, rng, n_inputs=1, reps=ALL_REPS, blocks='{"big"}', budget=None, label="big block", children=1)
 
 
 # ============================================================================= recorded histories (code -> spec)
@@ -467,6 +626,7 @@ def record_history(job):
     node = "" if idx % 2 == 0 else "hist/run_1"
     path = Path(workdir) / f"t{idx}.h5"
     full = Path(workdir) / f"t{idx}-full.h5"
+    other = Path(workdir) / f"t{idx}-other.h5"
     database = Database()
     events = []
     try:
@@ -502,7 +662,7 @@ def record_history(job):
         attach(database)
         for _ in range(rnd.randint(4, 14)):
             have = {rp.key_id(x.wrapped_array): set(o) for x, o in database.items()}
-            choice = rnd.choice(["store", "store", "more", "more", "export", "export", "reload", "update"])
+            choice = rnd.choice(["store", "store", "more", "more", "export", "export", "reload", "update", "merge"])
             if choice == "store" and len(have) < TRACE_NKEYS:
                 key = len(have) + 1
                 vals, real_outs = outs_for(key, rnd.sample(names, rnd.randint(0, 4)))
@@ -525,6 +685,32 @@ def record_history(job):
                 # (with an exporting listener attached, update_from_hdf would write the file it is reading)
                 database.update_from_hdf(path, hdf_node_path=node)
                 events.append({"op": "Update", "memory": _rec_db(rp.project_db(database))})
+            elif choice == "merge" and mode == "explicit":
+                # another file, written by another database: some points the working database has (with outputs
+                # it has or not) and the next new ones, in any order; written at once or incrementally
+                n_new = rnd.randint(0, min(2, TRACE_NKEYS - len(have)))
+                keys = rnd.sample(sorted(have), rnd.randint(0 if n_new else min(1, len(have)), min(2, len(have))))
+                for key in range(len(have) + 1, len(have) + n_new + 1):
+                    keys.insert(rnd.randint(0, len(keys)), key)
+                new_keys = sorted(k for k in keys if k not in have)
+                it = iter(new_keys)
+                keys = [k if k in have else next(it) for k in keys]  # the new points arrive in their numbering order
+                if other.exists():
+                    os.remove(other)
+                foreign = Database()
+                rec = []
+                incremental = rnd.random() < 0.5
+                for key in keys:
+                    vals, real_outs = outs_for(key, rnd.sample(names, rnd.randint(0, 4)))
+                    rec.append({"key": key, "outs": vals})
+                    foreign.store(rp.POINTS[key].copy(), real_outs)
+                    if incremental:
+                        foreign.to_hdf(other, append=True, hdf_node_path=node)
+                if not incremental:
+                    foreign.to_hdf(other, hdf_node_path=node)
+                if keys:
+                    database.update_from_hdf(other, hdf_node_path=node)
+                    events.append({"op": "UpdateFrom", "other": rec, "memory": _rec_db(rp.project_db(database))})
         export(True, path, "Export")
         export(False, full, "FullCopy")
         return {"id": idx, "events": events, "node": node or "(root)", "mode": mode}
@@ -534,7 +720,7 @@ def record_history(job):
         return {"id": idx, "events": events, "node": node or "(root)", "exception": repr(ex),
                 "traceback": traceback.format_exc(limit=5)}
     finally:
-        for p in (path, full):
+        for p in (path, full, other):
             if p.exists():
                 os.remove(p)
 
@@ -583,13 +769,14 @@ def histories(ck: Check, rng, nproc):
     if ok_traces:
         ck.sample({"recorded_history": [e["op"] + ("(append)" if e.get("append") else "") for e in ok_traces[0]["events"]]})
     ck.extra["recorded_histories"] = {"recorded": n, "accepted": accepted, "events": sum(len(t["events"]) for t in ok_traces),
+                                      "other_files_read": sum(1 for t in ok_traces for e in t["events"] if e["op"] == "UpdateFrom"),
                                       "keys": TRACE_NKEYS, "names": len(TRACE_KINDS)}
 
 
 def run(ck: Check, rng):
     import time
 
-    nproc = 16 if ck.thorough else 8
+    nproc = int(os.environ.get("VERIF_NPROC", "0")) or (16 if ck.thorough else 8)
     rp.preload()
     t = [time.time()]
     for part in (histories, design_spaces, caches):
@@ -598,8 +785,10 @@ def run(ck: Check, rng):
     ck.extra["aux_wall_s"] = {"histories": round(t[1] - t[0], 1), "design_spaces": round(t[2] - t[1], 1),
                               "caches": round(t[3] - t[2], 1)}
     ck.assumptions += [
-        "design-space numbers: id n stands for n/7 (float variables) or n (integer variables); HDF5 compared exactly, "
-        "text files to a relative 1e-15 (16 significant digits)",
-        "cache reopening: one cache object open at a time on a node (two concurrent objects: D11, outside C11)",
-        "problem files: constraints and observables are compared by name, not by listing order",
+        "design-space numbers: id n stands for n/7 (float variables) or n (integer variables); HDF5 and text files "
+        "are compared exactly (a difference confined to the 17th significant digit is labelled precision=17th_digit)",
+        "cache reopening: one cache object open at a time on a node (two concurrent objects: D11, outside C11); "
+        "the elements of the 'big' Jacobian block (400 x 400, ~24000 non-zero elements) are not modelled: the harness "
+        "supplies the matrix and compares what is served with what it supplied",
+        "problem files: constraints and observables are compared in the order in which the problem lists them",
     ]
